@@ -122,6 +122,9 @@ pub fn get(prop: &str, tier: &str) -> Option<Check> {
                 batches.push(Batch { name: "rtu_server_model_faults", f: scen::rtu::run_server_model, cfg: cfg(Mode::LockStep, true, 0), runs: n(30_000, 800_000), real: REAL_SERVER_RTU, stub: STUB_SERVER_RTU });
                 batches.push(Batch { name: "retry_strategy_object", f: scen::client::run_retry_object, cfg: cfg(Mode::LockStep, false, 0), runs: n(50_000, 1_000_000), real: "rodbus doubling_retry_strategy (Doubling)", stub: "none (pure state machine, no simulation involved)" });
             }
+            if p == "C10" {
+                batches.push(Batch { name: "mbap_chunking_client", f: scen::client_chunk::run, cfg: cfg(Mode::LockStep, false, 0), runs: n(20_000, 800_000), real: REAL_CLIENT_TCP, stub: STUB_CLIENT_TCP });
+            }
             if p == "C10" || p == "C13" {
                 batches.push(Batch { name: "client_blocked_write", f: scen::robust::run_client_blocked_write, cfg: cfg(Mode::Racy, true, 0), runs: n(5_000, 150_000), real: REAL_CLIENT_TCP, stub: STUB_CLIENT_TCP });
             }
